@@ -62,16 +62,19 @@ def g_obs(o):
 def g_case(hist, out):
     ent = {e["op"]: e for e in (out.get("entries") or [])}
     ops = []
+    if hist.get("exec"):
+        ops.append("OPersist %s" % g_entry(ent[-1]))      # genesis, executed by the driver's bootstrap
     for i, o in enumerate(hist["ops"]):
-        if o["op"] == "p":
+        if o["op"] in ("p", "x"):
             ops.append("OPersist %s" % (g_entry(ent[i]) if i in ent else DUMMY_ENTRY))
         elif o["op"] == "r":
             ops.append("ORollback %d" % o["t"])
         else:
             ops.append("OReopen")
     tr = glist(out.get("steps") or [], lambda s: "(%d, %s)" % (s["code"], g_obs(s["obs"])))
-    return "(mkCase %s (mkU %d%%nat %s %s) %s %s %s %s)" % (
-        "true" if hist["full"] else "false", hist["kh"], g_nl(out["uh"]), g_nl(out["ut"]),
+    return "(mkCase %s %s (mkU %d%%nat %s %s) %s %s %s %s)" % (
+        "true" if hist.get("full") or hist.get("exec") else "false", "true" if hist.get("exec") else "false",
+        hist["kh"], g_nl(out["uh"]), g_nl(out["ut"]),
         glist(ops), tr,
         glist(out["hash_tbl"], lambda p: "(%s, %d)" % (g_hdr(p[0]), p[1])),
         glist(out["root_tbl"], lambda p: "(%s, %d)" % (g_nl(p[0]), p[1])))
@@ -207,6 +210,8 @@ def dup_trigger(hist, out):
     """the known finding's narrow trigger: an accepted rollback removes a block containing a
     transaction hash that also occurs in a surviving block (so its tx-meta key is deleted)"""
     live = []
+    if hist.get("exec"):
+        return False
     for o, s in zip(hist["ops"], out.get("steps") or []):
         if o["op"] == "p" and s["code"] == 0:
             live.append(list(o["txs"]))
@@ -221,6 +226,8 @@ def dup_trigger(hist, out):
 
 
 def nontrivial(hist, out):
+    if hist.get("exec"):
+        return sum(1 for o in hist["ops"] if o["op"] == "x" and o["n"] > 0) >= 2
     acc_p = sum(1 for o, s in zip(hist["ops"], out["steps"]) if o["op"] == "p" and s["code"] == 0)
     acc_r = any(o["op"] == "r" and s["code"] == 0 and o["t"] < 10 ** 6 for o, s in zip(hist["ops"], out["steps"]))
     rej = any(s["code"] != 0 for s in out["steps"])
@@ -228,11 +235,31 @@ def nontrivial(hist, out):
 
 
 def run_hists(ctx, exe, hists):
-    rc, outs, e = vlib.run_driver(exe, "chain", hists)
-    if rc != 0 or len(outs) != len(hists):
-        ctx.broken("driver:chain", (e or "")[-1500:] + " rc=%s got %d of %d" % (rc, len(outs), len(hists)))
-        return None
+    """chain-driver histories and executor-level histories go to different sub-commands"""
+    outs = [None] * len(hists)
+    for sub, sel in (("chain", [i for i, h in enumerate(hists) if not h.get("exec")]),
+                     ("exec", [i for i, h in enumerate(hists) if h.get("exec")])):
+        if not sel:
+            continue
+        rc, os_, e = vlib.run_driver(exe, sub, [hists[i] for i in sel])
+        if rc != 0 or len(os_) != len(sel):
+            ctx.broken("driver:" + sub, (e or "")[-1500:] + " rc=%s got %d of %d" % (rc, len(os_), len(sel)))
+            return None
+        for i, o in zip(sel, os_):
+            outs[i] = o
     return outs
+
+
+def gen_exec(r, nops):
+    """executor-level: blocks of native transfers (some failing) executed by the real executor, restarts"""
+    ops = []
+    for _ in range(nops):
+        if r.random() < 0.8:
+            n = r.choice([0, 1, 2, 3, 5, 9])
+            ops.append(dict(op="x", n=n, bad=r.randrange(0, n + 1) if n and r.random() < 0.4 else 0))
+        else:
+            ops.append(dict(op="o"))
+    return dict(exec=True, kh=sum(1 for o in ops if o["op"] == "x") + 3, ops=ops)
 
 
 def shrink(ctx, exe, hist, bad):
@@ -251,7 +278,7 @@ def shrink(ctx, exe, hist, bad):
                 continue
             # par references by op index shift: drop them when ops are removed
             cand["ops"] = [dict((k, v) for k, v in o.items() if k != "par" or v < 0) for o in cand["ops"]]
-            cand["kh"] = kh_of(cand["ops"])
+            cand["kh"] = kh_of(cand["ops"]) if not cand.get("exec") else cand["kh"]
             outs = run_hists(ctx, exe, [cand])
             if outs:
                 vs = judge(ctx, [cand], outs, tag="C09s")
@@ -335,7 +362,10 @@ def run_inner(ctx):
                 hists.append(gen_structured(r, full=r.random() < 0.5, nops=r.randrange(4, 12), want_dup=True))
             else:
                 hists.append(gen_malformed(r, r.randrange(3, 11)))
-        dist = dict(corpus=ncorp, histories=len(hists), full=sum(1 for h in hists if h["full"]),
+        for i in range(12 if ctx.quick else 300):
+            hists.append(gen_exec(r, r.randrange(2, 8)))
+        dist = dict(corpus=ncorp, histories=len(hists), full=sum(1 for h in hists if h.get("full")),
+                    executor_level=sum(1 for h in hists if h.get("exec")),
                     ops=sum(len(h["ops"]) for h in hists))
         kinds = {}
         B = 300
